@@ -1010,6 +1010,28 @@ fn main() {
             } } }
             println!("RESULT enum:eq-laws {} values, all pairs and triples satisfy the equality / hash / order laws", vals.len());
         }
+        // ---- C12: the same laws over seeded random values (all kinds, nested), all pairs and triples of a batch, many batches
+        "enum:random-eq-laws" => {
+            use randgen::*;
+            let seed: u64 = std::env::var("VERIF_SEED").ok().and_then(|s| s.parse().ok()).unwrap_or(0);
+            let batches: usize = args.get(2).and_then(|s| s.parse().ok()).unwrap_or(40);
+            let mut rng = Rng::seeded(seed ^ 0x3C3C);
+            let mut n = 0u64;
+            for _ in 0..batches {
+                // a batch: random values, and for some of them an equal copy and a near copy (so that equal pairs occur)
+                // (the property speaks of values without NaN)
+                let mut vals: Vec<Value> = (0..10).map(|_| value(&mut rng, 0, &IDS, &STRS, &UNITS, &ZONES)).filter(|v| !format!("{v:?}").contains("NaN")).collect();
+                if vals.len() < 3 { continue; }
+                let k = vals.len(); for i in 0..k { if rng.below(2) == 0 { let c = vals[i].clone(); vals.push(c); } }
+                vals.push(Value::make_list(vals[..3].to_vec())); vals.push(Value::make_list(vals[..3].to_vec()));
+                for a in &vals { for b in &vals { for c in &vals {
+                    n += 1;
+                    let bad = laws(a, b, c);
+                    if !bad.is_empty() { println!("RESULT enum:random-eq-laws seed={seed} a={a:?} b={b:?} c={c:?} violated={bad:?}"); std::process::exit(3); }
+                } } }
+            }
+            println!("RESULT enum:random-eq-laws seed={seed}: {n} random triples satisfy the equality / hash / order laws");
+        }
         // ---- C19 enumerator: kinds are exclusive on sample values; a grid built from records keeps them as rows and has one sorted column per distinct tag
         "enum:kinds-grid" => {
             use libhaystack::val::{Dict, Grid};
